@@ -248,9 +248,21 @@ impl QueryEngine {
         Ok(())
     }
 
+    /// Plan user-supplied SQL. The query interfaces are read-only: DDL (CREATE / DROP ...),
+    /// DML (INSERT, COPY ... TO) and statements (SET ...) are refused before anything runs -
+    /// DataFusion executes DDL and SET already while planning, and COPY would write through
+    /// the session's object-store handle.
+    async fn plan_sql(&self, sql: &str) -> Result<DataFrame> {
+        let options = SQLOptions::new()
+            .with_allow_ddl(false)
+            .with_allow_dml(false)
+            .with_allow_statements(false);
+        Ok(self.ctx.sql_with_options(sql, options).await?)
+    }
+
     /// Execute a SQL query
     pub async fn execute(&self, sql: &str) -> Result<Vec<RecordBatch>> {
-        let df = self.ctx.sql(sql).await?;
+        let df = self.plan_sql(sql).await?;
         let batches = df.collect().await?;
         Ok(batches)
     }
@@ -263,7 +275,7 @@ impl QueryEngine {
         index_controller: Arc<crate::adaptive_index::AdaptiveIndexController>,
     ) -> Result<Vec<RecordBatch>> {
         // 1. Analyze query for filter predicates
-        let df = self.ctx.sql(sql).await?;
+        let df = self.plan_sql(sql).await?;
         let plan = df.logical_plan();
         let filter_columns = Self::extract_filter_columns(plan);
 
@@ -359,14 +371,14 @@ impl QueryEngine {
         &self,
         sql: &str,
     ) -> Result<datafusion::physical_plan::SendableRecordBatchStream> {
-        let df = self.ctx.sql(sql).await?;
+        let df = self.plan_sql(sql).await?;
         let stream = df.execute_stream().await?;
         Ok(stream)
     }
 
     /// Extract time range from a SQL query by analyzing the logical plan
     pub async fn extract_time_range(&self, sql: &str) -> Result<TimeRange> {
-        let df = self.ctx.sql(sql).await?;
+        let df = self.plan_sql(sql).await?;
         let plan = df.logical_plan();
 
         // Extract time predicates from the plan
@@ -494,7 +506,7 @@ impl QueryEngine {
         &self,
         sql: &str,
     ) -> Result<Vec<crate::metadata::predicates::ColumnPredicate>> {
-        let df = self.ctx.sql(sql).await?;
+        let df = self.plan_sql(sql).await?;
         let plan = df.logical_plan();
 
         let mut predicates = Vec::new();
@@ -651,7 +663,7 @@ impl QueryEngine {
 
     /// Analyze a query without executing
     pub async fn analyze(&self, sql: &str) -> Result<datafusion::logical_expr::LogicalPlan> {
-        let df = self.ctx.sql(sql).await?;
+        let df = self.plan_sql(sql).await?;
         Ok(df.logical_plan().clone())
     }
 
@@ -662,7 +674,7 @@ impl QueryEngine {
 
         // In a full implementation, we'd cache the logical plan
         // For now, just validate the SQL
-        let _ = self.ctx.sql(sql).await?;
+        let _ = self.plan_sql(sql).await?;
 
         Ok(handle)
     }
